@@ -134,8 +134,13 @@ def gen_client(rng, n_ops, soak=False):
             lines += ["startdt", "step", "rx " + apci.STARTDT_CON.hex(), "step"]
         elif r < 97:
             lines += ["stopdt", "step", "rx " + apci.STOPDT_CON.hex(), "step", "startdt", "step", "rx " + apci.STARTDT_CON.hex(), "step"]
-        else:
+        elif r < 99:
             lines.append("rxi %s %d" % (peer_asdu(pid).hex(), rng.choice([1, -1])))
+            lines.append("step 2")
+        else:
+            # right N(S), N(R) that acknowledges what was never sent: refused and the connection is given up -- whatever
+            # the client still writes (closing acknowledgement) counts the accepted frames only
+            lines.append("rxi %s 0 %d" % (peer_asdu(pid).hex(), rng.choice([1, 2, 7, 16384])))
             lines.append("step 2")
     lines.append("step 2")
     return lines
